@@ -86,12 +86,72 @@ def ctx_barrier(ctx, r):
     arm = arm_of(gs, "StmtKind", "Break")
     ok = False
     if arm is not None:
-        for m in q.walk(arm["body"]):
-            if m["k"] == "Match":
-                for a in m["arms"]:
-                    txt = q.show_pat(a["pat"]).replace(" ", "")
-                    if "Some(None)" in txt and any(y["k"] == "MethodCall" and y["m"] == "push" for y in q.walk(a["body"])):
-                        ok = True
+        # evaluated over the three shapes of `loop_stack.last()`: no loop at all, a function boundary, a loop
+        CASES = ("None", "Some(None)", "Some(Some)")
+
+        def pat_matches(pat_txt, case):
+            for alt in pat_txt.replace(" ", "").split("|"):
+                if alt in ("_",) or (alt.isidentifier() and alt not in ("None",)):
+                    return True
+                if alt == "None" and case == "None":
+                    return True
+                if alt == "Some(None)" and case == "Some(None)":
+                    return True
+                if alt.startswith("Some(Some(") and case == "Some(Some)":
+                    return True
+                if alt in ("Some(_)", "Some(..)") and case != "None":
+                    return True
+            return False
+
+        flags = {}
+        for l in q.walk(arm["body"]):
+            if l["k"] == "Local" and l.get("init") is not None:
+                for b in q.pat_bindings(l["pat"]):
+                    flags[b] = l["init"]
+
+        def is_last(e):
+            t = q.show(e).replace(" ", "")
+            if t.endswith("loop_stack.last()"):
+                return True
+            return e["k"] == "Path" and e["p"] in flags and is_last(flags[e["p"]])
+
+        def cond(c, case):
+            while c["k"] == "Paren":
+                c = c["e"]
+            if c["k"] == "Unary" and c.get("op") in ("!", "Not"):
+                return not cond(c["e"], case)
+            if c["k"] == "Path" and c["p"] in flags:
+                return cond(flags[c["p"]], case)
+            if c["k"] == "Macro" and c.get("name") == "matches" and c.get("pat") is not None and c.get("args") and is_last(c["args"][0]):
+                return pat_matches(q.show_pat(c["pat"]), case)
+            if c["k"] == "Let" and is_last(c["e"]):
+                return pat_matches(q.show_pat(c["pat"]), case)
+            raise ValueError(q.show(c))
+
+        def reports(node, case):
+            k = node["k"]
+            if k == "Block":
+                return any(reports(s_, case) for s_ in node["stmts"])
+            if k == "ExprStmt":
+                return reports(node["e"], case)
+            if k == "Local":
+                return False
+            if k == "If":
+                if cond(node["c"], case):
+                    return reports(node["t"], case)
+                return reports(node["e"], case) if node.get("e") is not None else False
+            if k == "Match" and is_last(node["e"]):
+                for a in node["arms"]:
+                    if pat_matches(q.show_pat(a["pat"]), case):
+                        return reports(a["body"], case)
+                return False
+            return any(y["k"] == "MethodCall" and y["m"] == "push" and q.show(y["recv"]).endswith(".errors") for y in q.walk(node))
+
+        try:
+            got = {c: reports(arm["body"], c) for c in CASES}
+            ok = got == {"None": True, "Some(None)": True, "Some(Some)": False}
+        except (ValueError, KeyError):
+            ok = False
     r.ob(ok, "typecheck.rs:generate_constraints_stmt:Break:barrier-not-honoured", TC, arm["l"] if arm else 0,
          "break/continue must report NotInLoop when the innermost loop_stack entry is the function barrier `Some(None)`", sample="Break/Continue: Some(None) -> NotInLoop")
     # (2) every function-boundary construct pushes the barrier: functions that push func_ret_stack, and the TaskBlock arm
@@ -331,10 +391,10 @@ def import_kinds(ctx, r):
                      sample=f"add_other_pred: {y['m']} guarded by {pname}(name)")
         r.count("children copied by add_other_pred", copies, 2, RES)
     if "Glob" in arms:
-        r.ob(any(x["k"] == "MethodCall" and x["m"] == "add_other" for x in q.walk(arms["Glob"]["body"])), "resolve.rs:resolve_imports_file:Glob", RES, arms["Glob"]["l"], "glob import must add every name")
+        r.ob(any(x["k"] == "MethodCall" and x["m"] == "add_other" for x in W(arms["Glob"]["body"])), "resolve.rs:resolve_imports_file:Glob", RES, arms["Glob"]["l"], "glob import must add every name")
     if "As" in arms:
         b = arms["As"]["body"]
-        r.ob(any(x["k"] == "MethodCall" and x["m"] == "add_namespace" for x in q.walk(b)) and not any(x["k"] == "MethodCall" and x["m"] == "add_other" and q.show(x["recv"]) == "effective_namespace" for x in q.walk(b)),
+        r.ob(any(x["k"] == "MethodCall" and x["m"] == "add_namespace" for x in W(b)) and not any(x["k"] == "MethodCall" and x["m"] == "add_other" and q.show(x["recv"]).replace("&mut ", "").strip("()") == "effective_namespace" for x in W(b)),
              "resolve.rs:resolve_imports_file:As", RES, arms["As"]["l"], "`use m as p` must expose the names under the prefix only")
 
 
@@ -943,7 +1003,7 @@ def assign_captured(ctx, r):
     if arm is None:
         r.missing("resolve_names_stmt:Assign", RES)
         return
-    errs = [x for x in q.walk(arm["body"]) if x["k"] == "If" and "is_captured" in q.show(x["c"]) and any(y["k"] == "MethodCall" and y["m"] == "push" and q.show(y["recv"]).endswith(".errors") for y in q.walk(x["t"]))]
+    errs = [x for x in q.walk(arm["body"]) if x["k"] == "If" and any(y["k"] == "MethodCall" and y["m"] == "is_captured" for y in W(x["c"])) and any(y["k"] == "MethodCall" and y["m"] == "push" and q.show(y["recv"]).endswith(".errors") for y in q.walk(x["t"]))]
     for e_ in errs:
         conj = []
 
@@ -954,7 +1014,17 @@ def assign_captured(ctx, r):
             else:
                 conj.append(c)
 
-        flat(e_["c"])
+        cnd = e_["c"]
+        if cnd["k"] == "Call" and isinstance(cnd.get("inl"), dict):
+            # the condition is a predicate function: its let-else patterns and the conjuncts of its result are the conditions
+            hb = cnd["inl"]["body"]
+            for st_ in hb.get("stmts", []):
+                if st_["k"] == "Local" and st_.get("else") is not None:
+                    conj.append({"k": "Let", "pat": st_["pat"], "e": st_["init"], "l": st_["l"]})
+                elif st_["k"] == "ExprStmt":
+                    flat(st_["e"])
+        else:
+            flat(cnd)
         extra = []
         for c in conj:
             t = q.show(c).replace(" ", "")
@@ -966,6 +1036,8 @@ def assign_captured(ctx, r):
                     continue
                 if pt in ("Some(Declaration::Var(_))", "Some(Declaration::Var(..))"):
                     continue
+            if c["k"] == "Macro" and c.get("name") == "matches" and c.get("pat") is not None and q.show_pat(c["pat"]).replace(" ", "") in ("Some(Declaration::Var(_))", "Some(Declaration::Var(..))") and "lookup_declaration" in q.show(c):
+                continue
             extra.append(q.show(c)[:80])
         r.ob(not extra, "resolve.rs:resolve_names_stmt:Assign:captured-check-narrowed", RES, e_["l"],
              f"the captured-assignment diagnostic is only raised under the extra condition(s) {extra}: every captured variable - `var`, `let`, loop and match bindings, and parameters of the enclosing function (declared as identifiers, not patterns) - is a private copy inside the lambda or task, so the assignment must be reported for all of them",
@@ -1019,15 +1091,17 @@ def capture_walk(ctx, r):
     if not bool_params:
         # form A: the boundary decides at once - a closure scope asks whether the name exists anywhere further out
         r.ob(found_ret == ["false"], f"resolve.rs:{wname}:declared-inside-is-not-captured", RES, local_found[0]["l"], f"{wname}: a name declared in a scope reached before any lambda/task boundary is not captured (returns {found_ret})", sample=f"{wname}: found before a boundary -> false")
-        gates = [x for x in q.walk(walker["body"]) if x["k"] == "If" and q.show(x["c"]).replace(" ", "").strip("()") == "self.is_closure_scope"]
+        gates = [x for x in q.walk(walker["body"]) if x["k"] == "If" and q.show(x["c"]).replace(" ", "").strip("()").lstrip("!").strip("()") == "self.is_closure_scope"]
         ok = False
         detail = "no `if self.is_closure_scope`"
         if gates:
             g = gates[0]
-            then_calls = [x for x in q.walk(g["t"]) if x["k"] == "MethodCall" and "enclosing" in q.show(x["recv"]) and x["m"] in fns and x["m"] != wname]
-            whole_chain = [x for x in then_calls if any(y["k"] == "MethodCall" and y["m"] == x["m"] and "enclosing" in q.show(y["recv"]) for y in q.walk(fns[x["m"]]["body"]))]
-            else_rec = g.get("e") is not None and any(y in rec for y in q.walk(g["e"]))
-            then_rec = any(y in rec for y in q.walk(g["t"]))
+            negated = q.show(g["c"]).replace(" ", "").strip("()").startswith("!")
+            at_boundary, plain = (g.get("e"), g["t"]) if negated else (g["t"], g.get("e"))
+            then_calls = [x for x in q.walk(at_boundary or {"k": "Block", "stmts": []}) if x["k"] == "MethodCall" and "enclosing" in q.show(x["recv"]) and x["m"] in fns and x["m"] != wname]
+            whole_chain = [x for x in then_calls if any(y["k"] == "MethodCall" and y["m"] == x["m"] and "enclosing" in q.show(y["recv"]) for y in W(fns[x["m"]]["body"]))]
+            else_rec = plain is not None and any(y in rec for y in q.walk(plain))
+            then_rec = at_boundary is not None and any(y in rec for y in q.walk(at_boundary))
             ok = bool(whole_chain) and else_rec and not then_rec
             detail = f"at a boundary: {[q.show(x)[:60] for x in then_calls]}; otherwise recurses: {else_rec}"
         r.ob(ok, f"resolve.rs:{wname}:boundary-forgotten", RES, walker["l"],
@@ -1116,8 +1190,8 @@ def emit_dead(ctx, r):
                              f"{f['name']}: code is emitted (`{q.show(first)[:80]}`) right after the unconditional `{dead[1]}` with no label in between: it can never execute",
                              sample=f"{f['name']}: after {dead[1][:40]} comes a label")
                         dead = None
-    r.count("unconditional transfers emitted mid-sequence", n_transfer, 20, TB)
-    r.count("emissions following a transfer", n_checked, 7, TB)
+    r.count("unconditional transfers emitted mid-sequence", n_transfer, 10, TB)
+    r.count("emissions following a transfer", n_checked, 3, TB)
 
 
 def _dominating_stmts(fn_body, target):
@@ -1144,13 +1218,22 @@ def unwrap_guard(ctx, r):
     for f, _ in q.iter_items(items):
         if f["k"] != "Fn" or f.get("body") is None:
             continue
+        # a lookup wrapped in a local closure (`let sig = |ctx, name| imp.get_method_by_name(name).unwrap()..`) counts once per call
+        sites = []
         for x in q.walk(f["body"]):
-            if not (x["k"] == "MethodCall" and x["m"] in ("unwrap", "expect") and x["recv"]["k"] == "MethodCall" and x["recv"]["m"] == "get_method_by_name"):
-                continue
+            if x["k"] == "MethodCall" and x["m"] in ("unwrap", "expect") and x["recv"]["k"] == "MethodCall" and x["recv"]["m"] == "get_method_by_name":
+                inside_closure = any(c["k"] == "Closure" and any(y is x for y in q.walk(c)) for c in q.walk(f["body"]))
+                if not inside_closure:
+                    sites.append((x, x))
+            if x["k"] == "Call" and isinstance(x.get("inl"), dict) and x["inl"].get("closure"):
+                for y in q.walk(x["inl"]["body"]):
+                    if y["k"] == "MethodCall" and y["m"] in ("unwrap", "expect") and y["recv"]["k"] == "MethodCall" and y["recv"]["m"] == "get_method_by_name":
+                        sites.append((y, x))
+        for x, at in sites:
             look = x["recv"]
             recv = q.show(look["recv"])
             lit = look["args"][0].get("v") if look["args"] and look["args"][0]["k"] == "Lit" else None
-            doms = _dominating_stmts(f["body"], x)
+            doms = _dominating_stmts(f["body"], at)
             # where does the receiver come from?
             origin = [s for s in doms if s["k"] == "Local" and recv in q.pat_bindings(s["pat"]) and s.get("init") is not None]
             origin_txt = q.show(origin[-1]["init"]) if origin else ""
@@ -1285,7 +1368,7 @@ def for_epilogue(ctx, r):
         return
     # the label `break` jumps to: the end_label of the EnclosingLoop pushed in this arm
     brk = None
-    for x in q.walk(arm["body"]):
+    for x in W(arm["body"]):  # the loop context may be pushed by a helper the arm delegates to
         if x["k"] == "Struct" and "EnclosingLoop" in str(x.get("p")):
             for fl in x.get("fields", []):
                 if fl.get("name") == "end_label":
